@@ -480,6 +480,12 @@ class Gen:
                 body = self.gen_content(scope, depth, in_component, usable, extra)
                 if df:
                     body.insert(1, ("out", ("var", df)))
+                # (only without a default= alias: the reference binds the alias eagerly, the code lazily - they agree when the alias is printed)
+                r2 = r.random() if df is None else 1.0
+                if r2 < 0.07:
+                    body = []                      # a fill that is PROVIDED but empty: the slot renders nothing, is_filled is true
+                elif r2 < 0.14:
+                    body = [("text", r.choice(["static", "S+", " "]))]   # static text only (eligible for the Component.render variant)
                 fills.append(("fill", ("str", nm), dv, df, body))
             elif style < 0.75:
                 # conditional fill
